@@ -213,6 +213,7 @@ def _branch_and_price(
     """Main branch-and-price algorithm."""
     total_cg_iters = 0
     root_bound = float("-inf")
+    root_converged = False
 
     def finish(solution, nodes, status):
         """Hand back a plan: it must cover every demand, and OPTIMAL needs the root LP bound to match."""
@@ -227,12 +228,14 @@ def _branch_and_price(
                 plan[best] = plan.get(best, 0) + ceil((demand - produced) / best[i])
                 status = Status.FEASIBLE
         rolls = float(sum(plan.values()))
-        if status == Status.OPTIMAL and rolls > ceil(root_bound - 1e-6):
-            status = Status.FEASIBLE  # no certificate: the search tree does not re-price dropped columns
+        if status == Status.OPTIMAL and (not root_converged or rolls > ceil(root_bound - 1e-6)):
+            # no certificate: the search tree does not re-price dropped columns, and the root LP value is
+            # a lower bound only if its column generation converged (not cut short by max_iter)
+            status = Status.FEASIBLE
         return Result(plan, rolls, nodes, total_cg_iters, status)
 
     # Solve root node LP via column generation
-    x_vals, lp_obj, cg_iters = _solve_node_lp(
+    x_vals, lp_obj, cg_iters, root_converged = _solve_node_lp(
         columns, column_set, demands, {}, pricing_fn, is_cutting_stock, max_iter, eps
     )
     total_cg_iters += cg_iters
@@ -273,7 +276,7 @@ def _branch_and_price(
         col_bounds = {idx: (lo, hi) for idx, lo, hi in node.column_bounds}
 
         # Solve node LP with column generation
-        x_vals, lp_obj, cg_iters = _solve_node_lp(
+        x_vals, lp_obj, cg_iters, _ = _solve_node_lp(
             columns, column_set, demands, col_bounds, pricing_fn, is_cutting_stock, max_iter, eps
         )
         total_cg_iters += cg_iters
@@ -325,14 +328,18 @@ def _branch_and_price(
 
 
 def _solve_node_lp(columns, column_set, demands, col_bounds, pricing_fn, is_cutting_stock, max_iter, eps):
-    """Solve LP relaxation at a B&B node via column generation."""
+    """Solve LP relaxation at a B&B node via column generation.
+
+    Returns (x_vals, lp_obj, cg_iters, converged); converged is False when max_iter cut pricing short.
+    """
     cg_iters = 0
+    converged = False
 
     for _ in range(max_iter):
         x_vals, duals, lp_obj = _solve_bounded_master_lp(columns, demands, col_bounds, eps)
 
         if lp_obj == float("inf"):
-            return x_vals, lp_obj, cg_iters
+            return x_vals, lp_obj, cg_iters, True
 
         # Pricing
         new_col, pricing_value = pricing_fn(duals)
@@ -340,9 +347,11 @@ def _solve_node_lp(columns, column_set, demands, col_bounds, pricing_fn, is_cutt
         # Check reduced cost
         if is_cutting_stock:
             if pricing_value <= 1.0 + eps:
+                converged = True
                 break
         else:
             if new_col is None or pricing_value >= -eps:
+                converged = True
                 break
 
         if new_col is not None and new_col not in column_set:
@@ -353,7 +362,7 @@ def _solve_node_lp(columns, column_set, demands, col_bounds, pricing_fn, is_cutt
 
     # Final solve
     x_vals, duals, lp_obj = _solve_bounded_master_lp(columns, demands, col_bounds, eps)
-    return x_vals, lp_obj, cg_iters
+    return x_vals, lp_obj, cg_iters, converged
 
 
 def _solve_bounded_master_lp(columns, demands, col_bounds, eps):
